@@ -1,8 +1,6 @@
 import Props.C08
+import Props.C09
 open DV.C08
-#print axioms then_matrix
-#print axioms tensor_kron
-#print axioms swap_natural
-#print axioms interchange_law
-#print axioms snake_l_single
-#print axioms dagger_then
+#print axioms snake_multiwire
+#print axioms cups_spec
+#print axioms DV.C09.functor_eval_eq_layers
